@@ -292,3 +292,36 @@ mut('c08-step-outside-no-grad', ['C08'], 'Adam.step updates outside no_grad', [(
       "    def step(self):\n        super().step()\n        if True:\n            for i, p in enumerate(self.parameters):\n                if not p.requires_grad or p._grad is None: continue\n                grad = -p._grad if self.maximize else p._grad   \n                    \n                # Weight decay\n                if self.weight_decay != 0:")], rules=['C08.NOGRAD'], accept_incomplete=True)
 mut('c08-twin-reassociated', ['C08'], 'Adam update re-associated: lr * (m_hat / (sqrt(v_hat) + eps))', [(O, "                p.data -= (self.lr * m1_corrected) / (np.sqrt(m2_corrected) + self.epsilon)\n                \n                \nclass AdamW", "                p.data -= self.lr * (m1_corrected / (m2_corrected**0.5 + self.epsilon))\n                \n                \nclass AdamW")], expect='silent')
 mut('c08-twin-sgd-temp', ['C08'], 'SGD momentum update through a temporary and commuted products', [(O, "self.momentum_buffer[i] = self.momentum*self.momentum_buffer[i] + (1.0 - self.dampening)*grad", "buf = self.momentum_buffer[i]*self.momentum\n                        self.momentum_buffer[i] = buf + grad*(1.0 - self.dampening)")], expect='silent')
+
+# ------------------------------------------------------------------------------------------------ C12
+mut('c12-no-dedup (revert of fix)', ['C12'], 'parameters() reports shared parameters once per path',
+    [(M, """        # a parameter (or submodule) shared between several parents is reported once
+        unique_params = []; seen = set()
+        for p in params:
+            if id(p) not in seen:
+                seen.add(id(p))
+                unique_params.append(p)
+        return unique_params""", "        return params")], rules=['C12.ONCE'], accept_incomplete=True)
+mut('c12-dedup-by-equality', ['C12'], 'parameters() de-duplicates with `p not in list` (value comparison / elementwise ==)',
+    [(M, "            if id(p) not in seen:\n                seen.add(id(p))\n                unique_params.append(p)", "            if p not in unique_params:\n                unique_params.append(p)")], rules=['C12.ONCE'])
+mut('c12-setattr-stale (revert of fix)', ['C12'], 'plain assignment leaves the old registration', [(M, """            for registry in ('_parameters', '_submodules'):
+                if registry in self.__dict__: self.__dict__[registry].pop(__name, None)
+""", "")], rules=['C12.REG-EXCLUSIVE'])
+mut('c12-register-module-keeps-param', ['C12'], 'register_module does not remove a same-named parameter', [(M, "        self._parameters.pop(name, None)\n        self._submodules[name] = module", "        self._submodules[name] = module")], rules=['C12.REG-EXCLUSIVE'])
+mut('c12-eval-no-recursion', ['C12', 'C13'], 'eval() does not recurse into submodules', [(M, "        self.training = False\n        for m in self.submodules():\n            m.eval()\n        return self", "        self.training = False\n        return self")], rules=['C12.MODE'])
+mut('c12-train-recurses-eval', ['C12'], 'train() calls eval() on submodules', [(M, "        self.training = True\n        for m in self.submodules():\n            m.train()", "        self.training = True\n        for m in self.submodules():\n            m.eval()")], rules=['C12.MODE'])
+mut('c12-eval-skips-first', ['C12'], 'eval() skips the first submodule', [(M, "        self.training = False\n        for m in self.submodules():", "        self.training = False\n        for m in self.submodules()[1:]:")], rules=['C12.MODE'])
+mut('c12-unfreeze-own-only', ['C12'], 'unfreeze only touches the module\'s own parameters', [(M, "    def unfreeze(self):\n        for p in self.parameters():", "    def unfreeze(self):\n        for p in self._parameters.values():")], rules=['C12.MODE'])
+mut('c12-num-params-else-dropped', ['C12'], 'num_params counts frozen elements also as trainable', [(M, "            if p.requires_grad: num_trainable += p.size\n            else: num_non_trainable += p.size", "            num_trainable += p.size\n            if not p.requires_grad: num_non_trainable += p.size")], rules=['C12.ONCE'])
+mut('c12-sequential-unbound (revert of fix)', ['C12'], 'Sequential.forward binds its result only inside the loop', [(M, "        out = x\n        for module in self.submodules():\n            out = module(out)\n        return out", "        inp = x\n        for module in self.submodules():\n            out = module(inp)\n            inp = out\n        return out")], rules=['C12.SEQ'])
+mut('c12-sequential-reversed', ['C12', 'C14'], 'Sequential applies its submodules in reverse order', [(M, "        for module in self.submodules():\n            out = module(out)", "        for module in reversed(self.submodules()):\n            out = module(out)")], rules=['C12.SEQ', 'C14'])
+mut('c12-sequential-same-name', ['C12'], 'positional submodules all registered under the same name', [(M, "self.register_module(str(idx), module)", "self.register_module(str(0), module)")], rules=['C12.SEQ'])
+mut('c12-submodules-set', ['C12', 'C19'], 'submodules() returned through a set (order lost)', [(M, "return [m for m in self._submodules.values()]", "return list(set(self._submodules.values()))")], rules=['C12.ORDER', 'C19.ORDER'])
+mut('c12-layer-assign-before-super', ['C12'], 'Dropout assigns an attribute before super().__init__()', [(LY, "        super().__init__()\n        self.p = p", "        self.p = p\n        super().__init__()")], rules=['C12.SUBCLASS'])
+mut('c12-twin-parameters-any-is', ['C12'], 'de-duplication with any(p is q ...)', [(M, "            if id(p) not in seen:\n                seen.add(id(p))\n                unique_params.append(p)", "            if not any(p is q for q in unique_params):\n                unique_params.append(p)")], expect='silent')
+mut('c12-twin-setattr-direct-pop', ['C12'], 'plain branch pops from both registries explicitly', [(M, """            for registry in ('_parameters', '_submodules'):
+                if registry in self.__dict__: self.__dict__[registry].pop(__name, None)
+""", """            if '_parameters' in self.__dict__:
+                self._parameters.pop(__name, None)
+                self._submodules.pop(__name, None)
+""")], expect='silent')
